@@ -511,3 +511,24 @@ def derived_from_copy(ctx, rid):
                  "result is built from self.copy() on every path" if ok else
                  "%s builds its result from %s instead of self.copy(): the result of arithmetic on a PCBO/PCSO loses the "
                  "ancilla counter and the recorded constraints (and the type guarantee rests on copy())" % (name, why))
+        # the in-place operator is applied to the copy on every path that returns it (a shortcut that returns the bare
+        # copy is only neutral for + and - with a falsy operand)
+        g = cfg_of(fn.node)
+        OPS = {'__add__': ast.Add, '__sub__': ast.Sub, '__mul__': ast.Mult, '__pow__': ast.Pow, '__truediv__': ast.Div,
+               '__floordiv__': ast.FloorDiv}
+        oth = fn.params[1] if len(fn.params) > 1 else None
+        for r in [x for x in g.stmts() if isinstance(x, ast.Return) and isinstance(x.value, ast.Name)]:
+            applied = [n for n in g.stmts() if isinstance(n, ast.AugAssign) and is_name(n.target, r.value.id)
+                       and isinstance(n.op, OPS[name]) and is_name(n.value, oth)]
+            if not applied:
+                continue
+            okp = g.dominates(applied, r)
+            if not okp and name in ('__add__', '__sub__'):
+                facts = []
+                for t_, pol_, o_ in g.edge_dominators(r):
+                    facts += compare_atoms(t_, pol_)
+                okp = ('falsy', oth) in facts
+            ctx.inst(rid, fn, r, okp,
+                     "the copy is returned after `%s`" % src(applied[0]) if okp else
+                     "%s can return the bare copy of self without applying `%s`: for that operand the result is self instead of "
+                     "the %s" % (name, src(applied[0]), {'__mul__': 'product (an empty model is the constant 0)'}.get(name, 'result')))
